@@ -12,7 +12,7 @@ Import ListNotations.
 Open Scope string_scope.
 """
 
-NAMES = ['x', 'y', 'z', 'w']
+NAMES = ['x', '', 'zz9', 'w']        # incl. the empty string (a valid dataset / alias name and JSON key) and a longer name
 IDS = ['a', 'b', 'utt3', 'd', 'e_5']
 
 
